@@ -1,6 +1,6 @@
 ------------------------------ MODULE C07Trace ------------------------------
 (* V mode for C07/C08: judge observations of the control-file reader/writer. *)
-EXTENDS Deb822, TraceLib
+EXTENDS Deb822, TraceLib, LongTrace
 VARIABLES l, verdict
 vars == <<l, verdict>>
 
@@ -105,6 +105,6 @@ Judge(rec) ==
       [] OTHER -> V(FALSE, "unknown-event", "unknown event")
 
 Init == l \in 1..Len(Trace) /\ verdict = Pending
-Next == verdict.class = "pending" /\ verdict' = Judge(Trace[l]) /\ UNCHANGED l
+Next == verdict.class = "pending" /\ verdict' = JudgeOrCrash(Trace[l], LAMBDA r : IF IsLong(r) THEN JudgeLong(r) ELSE Judge(r)) /\ UNCHANGED l
 Spec == Init /\ [][Next]_vars
 =============================================================================
